@@ -3,6 +3,7 @@ package simplefixgo
 import (
 	"context"
 	"errors"
+	"net"
 	"strconv"
 	"time"
 
@@ -183,4 +184,74 @@ func H_C13_acceptor() {
 		}
 	}
 	zz.Assert(zz.Goroutines() == 0, "C13: a goroutine started by the library remains")
+}
+
+// memListener is an in-memory net.Listener: Accept hands out the queued connections, then blocks
+// until Close, after which it fails like a closed listener.
+type memListener struct {
+	conns  chan net.Conn
+	done   chan struct{}
+	closed bool
+}
+
+func (l *memListener) Accept() (net.Conn, error) {
+	select {
+	case c := <-l.conns:
+		return c, nil
+	case <-l.done:
+		return nil, errors.New("accept: use of closed network connection")
+	}
+}
+func (l *memListener) Close() error {
+	if !l.closed {
+		l.closed = true
+		close(l.done)
+	}
+	return nil
+}
+func (l *memListener) Addr() net.Addr { return nil }
+
+// H_C13_listen: Acceptor.ListenAndServe with one idle accepted connection; the acceptor is closed
+// locally (cause 0) or the listener fails (cause 1). params [cause, bufSize, preemptionBound, rotation]
+func H_C13_listen() {
+	cause := zz.Param(0)
+	zz.Class("listen/cause=" + strconv.Itoa(cause))
+	sc := &scriptConn{gate: make(chan struct{})}
+	l := &memListener{conns: make(chan net.Conn, 1), done: make(chan struct{})}
+	l.conns <- sc
+	stopped := 0
+	acc := NewAcceptor(l, NewAcceptorHandlerFactory("35", zz.Param(1)), time.Second, func(h AcceptorHandler) {
+		h.OnStopped(func() bool { stopped++; return true })
+	})
+	acc.size = zz.Param(1)
+	var ret error
+	returned := false
+	zz.Go(func() {
+		ret = acc.ListenAndServe()
+		returned = true
+	})
+	zz.Yield()
+	zz.Assert(!returned, "C13: ListenAndServe returned although nothing ended it")
+	zz.CoarseSchedules(true)
+	zz.PickRotation(zz.Param(3))
+	zz.PreemptionBound(zz.Param(2))
+	zz.ExploreSchedules(zz.Param(2) > 0)
+	if cause == 0 {
+		acc.Close()
+	} else {
+		_ = l.Close()
+	}
+	zz.WaitAll()
+	zz.ExploreSchedules(false)
+	zz.Yield()
+	zz.Reach("ended")
+	zz.Assert(returned, "C13: ListenAndServe does not return")
+	if cause == 0 {
+		zz.Assert(ret == nil, "C13: ListenAndServe reports an error for a local Close")
+	} else {
+		zz.Assert(ret != nil, "C13: ListenAndServe hides the listener failure")
+	}
+	zz.Assert(l.closed, "C13: the listener is not closed")
+	zz.Assert(sc.closed, "C13: the accepted socket is not closed when the acceptor ends")
+	zz.Assert(zz.Goroutines() == 0, "C13: a goroutine started by the library remains after the acceptor ended")
 }
